@@ -20,7 +20,7 @@ ASSUMPTIONS = [
 ]
 MANIFEST = {'text': 'structural necessary conditions: matches() can only return false (disabled), negated or !negated and treats a missing extended header as a failed criterion; '
                     'every criterion field matched on is serialised and every serialised key is parsed back; the case-insensitive literal matcher exists only under the ignore-case flag.'
-                    ' Added: no default is substituted for an unspecified criterion; the short JSON form of the message-type criterion is written only for the mask it is reloaded with; scratch buffers of the text front-ends are re-initialised between two ids.',
+                    ' Added: no default is substituted for an unspecified criterion; the short JSON form of the message-type criterion is written only for the mask it is reloaded with; scratch buffers of the text front-ends are re-initialised between two ids. Added: text taken from the input reaches the filter verbatim in every front-end (no trim / case folding / replace in the provenance of a text sink).',
             'technique': 'static analysis: MIR return-value census, read-set / string-key table agreement, control-dependence (dominating guard) check'}
 
 FILTER = 'adlt::filter::filter_impl::Filter'
@@ -74,7 +74,7 @@ def run(F, chk):
     check_matches_shape(m, F3)
     F4 = chk.rule('F4', 'matches() never substitutes a default for an unspecified criterion (no unwrap_or/map_or on a criterion option)')
     check_no_defaults(m, F4)
-    check_field_agreement(m, ser[0], fj, F1)
+    check_field_agreement(m, ser[0], fj, F1, F)
     check_regex_cache(F, F2)
     F5 = chk.rule('F5', 'a short JSON form (key that carries no mask) is written by Serialize only under `mask == the constant from_json reloads it with`')
     check_short_forms(ser[0], fj, F5)
@@ -82,6 +82,8 @@ def run(F, chk):
     check_scratch_buffers(F, F6)
     F7 = chk.rule('F7', 'text front-ends: criterion text taken from the input reaches the filter verbatim (no trim / case folding / replace on the way)')
     check_verbatim_text(F, F7)
+    F8 = chk.rule('F8', 'front-ends: the regex auto-detection decides only when the explicit is-regex flag is absent (an explicit false is honoured)')
+    check_autodetect_only_when_absent(F, F8)
 
 
 HELPERS_OF_MATCHES = []
@@ -175,7 +177,7 @@ def check_matches_shape(m, F3):
     F3.floor('extended-header accessor calls in matches() and its helpers', n_acc + n_helper, 5)
 
 
-def json_keys(body, callee_suffix, argidx):
+def json_keys(body, callee_suffix, argidx, _F=None, _depth=0):
     cfg = CFG(body)
     E = ExprBuilder(cfg)
     keys = {}
@@ -188,10 +190,33 @@ def json_keys(body, callee_suffix, argidx):
                     mm = re.search(r'"([^"]*)"', x[1])
                     if mm:
                         keys.setdefault(mm.group(1), body.loc(t.sp))
+        # keys handed to a private helper of the crate that looks them up (`char4_or_regex_from_json(&v, "ecu", "ecuIsRegex")`):
+        # a string constant passed for a parameter that the helper uses as the key of the same kind of lookup
+        elif _F is not None and t.callee.path.startswith('adlt::') and _depth < 2:
+            H = _F.get(t.callee.resolved) if t.callee.resolved else _F.get(t.callee.path)
+            if H is None or H.kind == 'closure':
+                continue
+            hcfg = CFG(H)
+            hE = ExprBuilder(hcfg)
+            used = set()
+            for hb in H.calls():
+                ht = hb.term
+                if ht.callee.path.endswith(callee_suffix) and len(ht.args) > argidx:
+                    for x in walk(hE.operand(ht.args[argidx])):
+                        if isinstance(x, tuple) and x and x[0] == 'place' and len(x) >= 2:
+                            used.add(x[1])
+            for i, a in enumerate(t.args):
+                pn = H.name_of(i + 1) or 'arg%d' % (i + 1)
+                if pn in used:
+                    for x in walk(E.operand(a)):
+                        if isinstance(x, tuple) and x and x[0] == 'str':
+                            mm = re.search(r'"([^"]*)"', x[1])
+                            if mm:
+                                keys.setdefault(mm.group(1), body.loc(t.sp))
     return keys
 
 
-def check_field_agreement(m, ser, fj, F1):
+def check_field_agreement(m, ser, fj, F1, F=None):
     Em = ExprBuilder(CFG(m))
     Es = ExprBuilder(CFG(ser))
     F1.fn(m.path); F1.fn(ser.path); F1.fn(fj.path)
@@ -208,7 +233,7 @@ def check_field_agreement(m, ser, fj, F1):
         else:
             F1.violation(('matched-not-serialised', fld), 'Filter.%s is a matching criterion (read at %s) but impl Serialize never reads it: to_json() -> from_json() drops this criterion' % (fld, loc), where=loc)
     written = json_keys(ser, '::serialize_field', 1)
-    read = json_keys(fj, 'Index::index', 1)
+    read = json_keys(fj, 'Index::index', 1, _F=F)
     F1.floor('JSON keys written by Serialize', len(written), 12)
     F1.floor('JSON keys read by from_json', len(read), 12)
     for k, loc in sorted(written.items()):
@@ -507,3 +532,57 @@ def check_verbatim_text(F, F7):
                     else:
                         F7.ok(sample={'front_end': f.path, 'sink': what, 'at': b.loc(sp), 'normalising_calls_in_provenance': 0})
     F7.floor('text sinks in the front-ends', n, 6)
+
+
+# ---------------------------------------------------------------------------------------------
+# F8: an explicit is-regex flag wins over the auto-detection
+
+def check_autodetect_only_when_absent(F, F8):
+    """"decides identically whether loaded via JSON, DLF ..": Serialize always writes `xxxIsRegex: false` for a literal id, DLF
+    files carry enableregexp_* flags.  `contains_regex_chars(text)` may therefore only decide when that flag is absent: the
+    call sits in the default closure of `unwrap_or_else` / `map_or_else` on the flag, or behind the None edge of the flag
+    lookup.  `flag.unwrap_or(false) || contains_regex_chars(s)` turns an explicit "literal" into a regex (`A.B` matches `AxB`)."""
+    fronts = [b for b in F.order if b.crate == 'lib' and b.path.startswith('adlt::filter::') and '::tests' not in b.path and b.kind != 'closure' and
+              re.search(r'filter_impl::Filter\b', b.ret_type()) and b.arg_count >= 1]
+    group = []
+    for f in fronts:
+        for x in [f] + list(F.closures_of(f.path)):
+            if x not in group:
+                group.append(x)
+            for blk in x.calls():
+                H = F.get(blk.term.callee.resolved) if blk.term.callee.resolved else F.get(blk.term.callee.path)
+                if H is not None and H.crate == 'lib' and H.path.startswith('adlt::filter::') and H.kind != 'closure' and H not in group and 'tests' not in H.path:
+                    group.append(H)
+                    group += [c for c in F.closures_of(H.path) if c not in group]
+    n = 0
+    for x in group:
+        cfg = E = None
+        for blk in x.calls():
+            if not blk.term.callee.path.endswith('utils::contains_regex_chars'):
+                continue
+            n += 1
+            F8.sites += 1
+            F8.fn(x.path)
+            why = None
+            if x.kind == 'closure':
+                parent = F.get(x.closure_of) if x.closure_of else None
+                import comparators
+                for pb in (parent.calls() if parent is not None else []):
+                    if re.search(r'Option::<T>::(unwrap_or_else|map_or_else)$', pb.term.callee.path):
+                        for a in pb.term.args[1:2]:
+                            c = comparators.closure_path_of(F, parent, a) if re.match(r'(&mut |&)?\{closure@', a.ty or '') else None
+                            if c is not None and c.path == x.path:
+                                why = 'default closure of %s on the explicit flag' % pb.term.callee.path.split('::')[-1]
+            if why is None:
+                cfg = cfg or CFG(x)
+                E = E or ExprBuilder(cfg, fold_named=True)
+                for (c, truth, D) in guards.known(cfg, E, blk.i):
+                    sc = show(c)
+                    if (truth in (False, ('eq', 0)) or (isinstance(truth, tuple) and truth[0] == 'ne' and 1 in truth[1])) and sc.startswith('discr(') and re.search(r'(Value::as_bool\(|HashMap::<K, V, S(, A)?>::get\(|HashMap::get\()', sc):
+                        why = 'behind the None edge of the explicit flag lookup'
+            if why:
+                F8.ok(sample={'autodetect_at': x.loc(blk.term.sp), 'decides_only': why})
+            else:
+                F8.violation(('autodetect-overrides-explicit-flag', x.closure_of or x.path), '%s calls contains_regex_chars() at %s outside the "flag absent" path: an explicit `IsRegex: false` / `enableregexp = 0` is overridden for ids containing regex characters, '
+                             'so the same filter matches different messages after a serialise/reload or through another front-end' % (x.path, x.loc(blk.term.sp)), where=x.loc(blk.term.sp))
+    F8.floor('auto-detection sites in the filter front-ends', n, 3)
